@@ -2,6 +2,7 @@
 // VF_O1..VF_O6 op codes: 1 = construct tracer (nests inside the live ones)   3 = destroy the innermost tracer
 //   4 = call int f(int) (returns a value)   5 = call void g(int)   6 = call that throws std::logic_error("boom")   7 = call that throws int
 //   9 = call void w(int) whose SIDE_EFFECT throws std::logic_error("boom") (the exception does not come from THROW)
+//   2 = call std::unique_ptr<int> q(int) returning a non-null move-only value: the traced value is the one returned (not a moved-from one)
 //   8 = call int r(int) whose side effect calls f (a nested mock call): two records, inner first, both to the innermost tracer
 // Reference: a stack of tracers; every accepted call delivers exactly one record to the top of the stack (none if empty).
 #include "vfapi.h"
@@ -38,20 +39,23 @@ struct M
   MAKE_MOCK1(r, int(int));
 #line 150
   MAKE_MOCK1(w, void(int));
+#line 160
+  MAKE_MOCK1(q, std::unique_ptr<int>(int));
 };
-static unsigned wname[6], wwith, warrow, wthrew, wunknown, wboom, wparam;
+static unsigned wname[7], wnull, wwith, warrow, wthrew, wunknown, wboom, wparam;
 static unsigned nx, nret;
 static char const boom[] = "boom";
 struct rec_tracer : trompeloeil::tracer
 {
   unsigned n = 0; char const *file = nullptr; unsigned long line = 0;
-  unsigned names = 0; bool with = false, arrow = false, threw = false, unknown = false, hasboom = false, arg = false, ret = false, order_ok = false;
+  unsigned names = 0; bool hasnull = false; bool with = false, arrow = false, threw = false, unknown = false, hasboom = false, arg = false, ret = false, order_ok = false;
   void trace(char const *f, unsigned long l, std::string const &call) override
   {
     ++n; file = f; line = l;
     char const *msg = call.c_str();
     names = 0;
-    for (int i = 0; i < 6; ++i) if (verif_msg_cnt(msg, wname[i]) == 1) names |= 1u << i;
+    for (int i = 0; i < 7; ++i) if (verif_msg_cnt(msg, wname[i]) == 1) names |= 1u << i;
+    hasnull = verif_msg_cnt(msg, wnull) >= 1;
     with = verif_msg_cnt(msg, wwith) == 1;
     arrow = verif_msg_cnt(msg, warrow) == 1;
     threw = verif_msg_cnt(msg, wthrew) == 1;
@@ -80,19 +84,25 @@ static void call(int kind)
     else if (kind == 6) r = mp->t(x);
     else if (kind == 8) r = mp->r(x);
     else if (kind == 9) mp->w(x);
+    else if (kind == 2) { auto up = mp->q(x); r = (up && *up == rv) ? rv : ~rv; }
     else mp->u(x);
   }
   catch (std::logic_error &) { got_std = true; }
   catch (int) { got_int = true; }
   VCLAIM(17, vf_nreports == 0, "C17.call_accepted");
   VCLAIM(17, (kind != 9 || got_std), "C17.side_effect_exception_reaches_caller");
-  VCLAIM(17, (kind != 6 || got_std) && (kind != 7 || got_int) && ((kind != 4 && kind != 8) || r == rv), "C17.call_outcome_unchanged_by_tracing");
+  VCLAIM(17, (kind != 6 || got_std) && (kind != 7 || got_int) && ((kind != 4 && kind != 8 && kind != 2) || r == rv), "C17.call_outcome_unchanged_by_tracing");
   for (int i = 0; i < depth; ++i)
     VCLAIM(17, stack[i]->n == before[i] + (i == depth - 1 ? (kind == 8 ? 2u : 1u) : 0u), "C17.exactly_one_record_to_innermost_tracer_only");
   if (top && kind == 8)
   {
     // the nested call's record was delivered first; the last one is the outer call's
     VCLAIM(17, top->names == (1u << 4) && top->line == 240ul && top->arrow && top->ret, "C17.nested_call_outer_record_last");
+  }
+  else if (top && kind == 2)
+  {
+    VCLAIM(17, top->names == (1u << 6) && top->line == 260ul && top->with && top->arg, "C17.record_carries_handlers_text");
+    VCLAIM(17, top->arrow && !top->hasnull, "C17.traced_return_value_is_the_returned_one_not_a_moved_from_one");
   }
   else if (top && kind == 9)
   {
@@ -115,7 +125,7 @@ static void op(int o)
 {
   if (o == 1) { if (depth < 3) { stack[depth] = new rec_tracer; ++depth; } }
   else if (o == 3) { if (depth > 0) { --depth; delete stack[depth]; stack[depth] = nullptr; } }
-  else if (o >= 4 && o <= 9) call(o);
+  else if ((o >= 4 && o <= 9) || o == 2) call(o);
 }
 extern "C" void harness(void)
 {
@@ -134,9 +144,11 @@ extern "C" void harness(void)
   auto e4 = NAMED_ALLOW_CALL(m, r(trompeloeil::_)).LR_SIDE_EFFECT(nested = mp->f(_1)).LR_RETURN(nested);
 #line 250
   auto e5 = NAMED_ALLOW_CALL(m, w(trompeloeil::_)).SIDE_EFFECT(throw std::logic_error(boom));
+#line 260
+  auto e6 = NAMED_ALLOW_CALL(m, q(trompeloeil::_)).RETURN(std::unique_ptr<int>(new int(lrv)));
 #line 300
   wname[4] = 0;
-  wname[0] = verif_watch_str(e0->name); wname[1] = verif_watch_str(e1->name); wname[2] = verif_watch_str(e2->name); wname[3] = verif_watch_str(e3->name); wname[4] = verif_watch_str(e4->name); wname[5] = verif_watch_str(e5->name);
+  wname[0] = verif_watch_str(e0->name); wname[1] = verif_watch_str(e1->name); wname[2] = verif_watch_str(e2->name); wname[3] = verif_watch_str(e3->name); wname[4] = verif_watch_str(e4->name); wname[5] = verif_watch_str(e5->name); wname[6] = verif_watch_str(e6->name); wnull = verif_watch_str("nullptr");
   wwith = verif_watch_str(" with.\n"); warrow = verif_watch_str(" -> ");
   wthrew = verif_watch_str("threw exception: what() = "); wunknown = verif_watch_str("threw unknown exception\n");
   nx = verif_watch_num((unsigned long)(long)x); nret = verif_watch_num((unsigned long)(long)rv);
